@@ -30,6 +30,19 @@ def concretise(c):
         elif w == "two_projects":
             proj = [l for l in base if "ASAP2_VERSION" not in l]
             base = base + proj
+        elif w.startswith("a2ml_"):
+            # a MODULE with an A2ML block whose text is no usable definition (or whose /end names another block)
+            text = {"a2ml_syntax": '\n      block "IF_DATA" struct { int }\n', "a2ml_no_ifdata_block": '\n      struct s { int; };\n',
+                    "a2ml_undeclared_type": '\n      block "IF_DATA" struct nosuchtype;\n', "a2ml_end_tag": '\n      block "IF_DATA" struct { int; };\n'}[w]
+            lines = docgen.document("A2ML", 171)
+            base = []
+            for l in lines:
+                if "A2ML" in l and "/begin" in l:
+                    i = l.index("A2ML")
+                    l = l[:i + 1] + [text] + l[i + 2:]
+                    if w == "a2ml_end_tag":
+                        l = l[:-1] + ["A2ML_X"]
+                base.append(l)
         return docgen.text_of(base)
     if k == "multi":
         return multi_document(c["faults"])
@@ -421,10 +434,17 @@ def enrich(c):
     return c
 
 
-def load_event(r, strict, case=None):
+def load_event(r, strict, case=None, built_from=None):
+    """built_from: the case the document was built from when it shall not be part of the event (no Corresponding
+    check) but facts about the document are known from it (is the text of its A2ML block a usable definition?)"""
     if "tokens" not in r or "panic" in r or "ok" not in r:
         return None
     ev = {"toks": a2ldoc.tokens_event(r["tokens"]), "strict": strict, "out": outcome_of(r)}
+    src = case if case is not None else built_from
+    broken = src is not None and src.get("k") == "file" and src.get("what") in ("a2ml_syntax", "a2ml_no_ifdata_block", "a2ml_undeclared_type")
+    for i, t in enumerate(ev["toks"]):
+        if t["t"] == "str" and i >= 2 and ev["toks"][i - 1]["v"] == "A2ML" and ev["toks"][i - 2]["t"] == "begin":
+            t["a"] = dict(t["a"], a2mlok=not broken)
     if case is not None:
         ev["case"] = enrich(case)
     return ev
